@@ -445,3 +445,148 @@ Definition status_line_tail (m : meta_shape) : str :=
 (* after a closing single quote only a line break may follow on that line *)
 Definition sq_line_ok (after : str) : bool :=
   match after with c :: _ => is_break c | [] => true end.
+
+(* ------------------------------------------------------------------ *)
+(* Part 4: one HAR / VCR entry as a function of ONE interaction, and    *)
+(* the writer loops with the Python local variables they carry from     *)
+(* one iteration to the next (sanitize_output off)                      *)
+(* ------------------------------------------------------------------ *)
+Definition hdict := list (str * list str).          (* dict[str, list[str]], insertion ordered *)
+Fixpoint hget (k : str) (d : hdict) : option (list str) :=
+  match d with
+  | [] => None
+  | (a, v) :: d' => if str_eqb k a then Some v else hget k d'
+  end.
+(* headers.get(name, [empty string])[0]; value lists are never empty *)
+Definition first_of (o : option (list str)) : str := match o with Some (v :: _) => v | _ => [] end.
+Definition first_values (d : hdict) : list (str * str) := map (fun kv => (fst kv, first_of (Some (snd kv)))) d.
+
+(* how a payload is turned into text: read by the harness, foreign to the model *)
+Inductive payload :=
+| B64 (b : str)                            (* base64.b64encode(bytes) *)
+| Utf8Replace (b : str)                    (* bytes.decode(utf-8, replace) *)
+| CodecReplace (enc : str) (b : str).      (* bytes.decode(enc, replace) *)
+
+Record xreq := { q_method : str; q_uri : str; q_headers : hdict; q_body : option str }.
+Record xresp := { p_status : N; p_message : str; p_headers : hdict; p_content : str; p_encoding : option str; p_version : str }.
+(* x_checks: None = the case id is not a key of recorder.checks; the bool says failed *)
+Record xchg := { x_id : N; x_req : xreq; x_resp : option xresp; x_checks : option (list (str * bool)) }.
+
+Definition s_content_type : str := [67;111;110;116;101;110;116;45;84;121;112;101].   (* Content-Type *)
+Definition s_location : str := [76;111;99;97;116;105;111;110].                        (* Location *)
+Definition s_utf8_dash : str := [117;116;102;45;56].                                  (* utf-8 *)
+Definition s_utf8 : str := [117;116;102;56].                                          (* utf8 *)
+Definition s_none : str := [78;111;110;101].                                          (* None *)
+Definition blen (b : str) : N := N.of_nat (length b).
+
+(* ---- HAR (cassettes.py:358-435) ---- *)
+Record har_resp := {
+  hr_status : N; hr_text : str; hr_version : str; hr_headers : list (str * str);
+  hr_mime : str; hr_content : payload; hr_base64 : bool; hr_size : N; hr_redirect : str }.
+Record hentry := {
+  he_method : str; he_url : str; he_version : str; he_headers : list (str * str);
+  he_post : option (str * payload); he_body_size : N; he_resp : option har_resp }.
+
+(* the locals of har_writer that survive from one loop iteration to the next *)
+Record hvars := { hv_post : option (str * payload); hv_resp : option har_resp; hv_version : str; hv_headers : list (str * str) }.
+Definition hvars0 : hvars := {| hv_post := None; hv_resp := None; hv_version := []; hv_headers := [] |}.
+
+Definition har_post_of (preserve : bool) (r : xreq) (b : str) : str * payload :=
+  (first_of (hget s_content_type (q_headers r)), if preserve then B64 b else Utf8Replace b).      (* 365-370 *)
+Definition har_resp_of (preserve : bool) (p : xresp) : har_resp :=
+  {| hr_status := p_status p; hr_text := p_message p; hr_version := [72;84;84;80;47] ++ p_version p;   (* HTTP/ + version, 385 *)
+     hr_headers := first_values (p_headers p);
+     hr_mime := first_of (hget s_content_type (p_headers p));      (* 374: the keys were lower-cased by Response.__init__ *)
+     hr_content := if preserve then B64 (p_content p) else Utf8Replace (p_content p);
+     hr_base64 := preserve;                                         (* 383: content is never None *)
+     hr_size := blen (p_content p);
+     hr_redirect := first_of (hget s_location (p_headers p)) |}.
+
+Definition har_step (preserve : bool) (v : hvars) (x : xchg) : hvars * hentry :=
+  (* 364-372: if body is not None: post_data = ... else: post_data = None *)
+  let v1 := match q_body (x_req x) with
+            | Some b => {| hv_post := Some (har_post_of preserve (x_req x) b); hv_resp := hv_resp v; hv_version := hv_version v; hv_headers := hv_headers v |}
+            | None => {| hv_post := None; hv_resp := hv_resp v; hv_version := hv_version v; hv_headers := hv_headers v |}
+            end in
+  (* 373-406: response, http_version assigned in both branches *)
+  let v2 := match x_resp x with
+            | Some p => {| hv_post := hv_post v1; hv_resp := Some (har_resp_of preserve p); hv_version := [72;84;84;80;47] ++ p_version p; hv_headers := first_values (p_headers p) |}
+            | None => {| hv_post := hv_post v1; hv_resp := None; hv_version := []; hv_headers := hv_headers v1 |}
+            end in
+  (* 408-412: headers = request headers *)
+  let v3 := {| hv_post := hv_post v2; hv_resp := hv_resp v2; hv_version := hv_version v2; hv_headers := first_values (q_headers (x_req x)) |} in
+  (v3, {| he_method := upper_ascii (q_method (x_req x)); he_url := q_uri (x_req x); he_version := hv_version v3;
+          he_headers := hv_headers v3; he_post := hv_post v3;
+          he_body_size := match q_body (x_req x) with Some b => blen b | None => 0 end;
+          he_resp := hv_resp v3 |}).
+
+Fixpoint har_loop (preserve : bool) (v : hvars) (xs : list xchg) : list hentry :=
+  match xs with
+  | [] => []
+  | x :: xs' => let '(v1, e) := har_step preserve v x in e :: har_loop preserve v1 xs'
+  end.
+
+(* the entry as a function of one interaction only *)
+Definition har_entry (preserve : bool) (x : xchg) : hentry :=
+  {| he_method := upper_ascii (q_method (x_req x)); he_url := q_uri (x_req x);
+     he_version := match x_resp x with Some p => [72;84;84;80;47] ++ p_version p | None => [] end;
+     he_headers := first_values (q_headers (x_req x));
+     he_post := match q_body (x_req x) with Some b => Some (har_post_of preserve (x_req x) b) | None => None end;
+     he_body_size := match q_body (x_req x) with Some b => blen b | None => 0 end;
+     he_resp := match x_resp x with Some p => Some (har_resp_of preserve p) | None => None end |}.
+
+(* ---- VCR (cassettes.py:201-304) ---- *)
+Inductive vstatus := VSuccess | VFailure | VSkip | VError.
+Record vcr_resp := { vr_code : N; vr_message : str; vr_headers : hdict; vr_body : option (str * payload); vr_version : str }.
+Record ventry := {
+  ve_id : N; ve_status : vstatus; ve_checks : list (str * bool); ve_uri : str; ve_method : str;
+  ve_headers : hdict; ve_body : option (str * payload); ve_resp : option vcr_resp }.
+(* locals of vcr_writer carried across iterations *)
+Record vvars := { vv_checks : list (str * bool); vv_status : vstatus }.
+Definition vvars0 : vvars := {| vv_checks := []; vv_status := VSuccess |}.
+
+(* 206-210: SUCCESS unless some check has status FAILURE *)
+Definition status_of_checks (cs : list (str * bool)) : vstatus := if existsb snd cs then VFailure else VSuccess.
+
+Definition vcr_req_body (preserve : bool) (r : xreq) : option (str * payload) :=
+  match q_body r with
+  | Some b => Some (s_utf8_dash, if preserve then B64 b else Utf8Replace b)       (* 150-157 / 169-178 *)
+  | None => None
+  end.
+Definition vcr_resp_body (preserve : bool) (p : xresp) : option (str * payload) :=
+  if preserve then
+    (* 159-165: encoded_body is None for an empty payload; the encoding is printed with str() *)
+    match p_content p with
+    | [] => None
+    | _ => Some (match p_encoding p with Some e => e | None => s_none end, B64 (p_content p))
+    end
+  else
+    (* 180-189 *)
+    let enc := match p_encoding p with Some [] => s_utf8 | Some e => e | None => s_utf8 end in
+    Some (enc, CodecReplace enc (p_content p)).
+
+Definition vcr_step (preserve : bool) (v : vvars) (x : xchg) : vvars * ventry :=
+  let v1 := match x_resp x with
+            | Some _ =>
+              match x_checks x with
+              | Some cs => {| vv_checks := cs; vv_status := status_of_checks cs |}     (* 204-210 *)
+              | None => {| vv_checks := []; vv_status := VSkip |}                       (* 211-215 *)
+              end
+            | None => {| vv_checks := []; vv_status := VError |}                        (* 216-218 *)
+            end in
+  (v1, {| ve_id := x_id x; ve_status := vv_status v1; ve_checks := vv_checks v1;
+          ve_uri := q_uri (x_req x); ve_method := q_method (x_req x); ve_headers := q_headers (x_req x);
+          ve_body := vcr_req_body preserve (x_req x);
+          ve_resp := match x_resp x with
+                     | Some p => Some {| vr_code := p_status p; vr_message := p_message p; vr_headers := p_headers p;
+                                         vr_body := vcr_resp_body preserve p; vr_version := p_version p |}
+                     | None => None
+                     end |}).
+
+Fixpoint vcr_loop (preserve : bool) (v : vvars) (xs : list xchg) : list ventry :=
+  match xs with
+  | [] => []
+  | x :: xs' => let '(v1, e) := vcr_step preserve v x in e :: vcr_loop preserve v1 xs'
+  end.
+
+Definition vcr_entry (preserve : bool) (x : xchg) : ventry := snd (vcr_step preserve vvars0 x).
